@@ -553,6 +553,11 @@ func (vt *Model) Draw(win vaxis.Window) {
 	defer vt.mu.Unlock()
 	vt.dirty = false
 	width, height := win.Size()
+	if width < 1 || height < 1 {
+		// a window without a cell: nothing to draw into, and nothing
+		// the terminal could be resized to
+		return
+	}
 	if int(width) != vt.width() || int(height) != vt.height() {
 		win.Width = width
 		win.Height = height
